@@ -277,7 +277,69 @@ let psk_hist steps =
     (List.combine steps outs)) in
   worst verdicts
 
-let f _id vs =
+(* ---- cross-check of extraction ------------------------------------------------------------ *)
+(* With ORACLE_DUMP=<file> every value the extracted model computes for a case is appended to
+   that file BEFORE any comparison with the implementation; bin/coqreplay_c27.py recomputes the
+   same numbers inside Coq with vm_compute (SHA-256 there is the table of digests of the record
+   plus the digests of the token candidates) and compares. *)
+let dump_chan = match Sys.getenv_opt "ORACLE_DUMP" with
+  | Some p when p <> "" -> Some (open_out_gen [Open_append; Open_creat] 0o644 p)
+  | _ -> None
+let d_hsh (l : n list) : int =
+  List.fold_left (fun acc b -> (acc * 257 + int_of_n b + 1) mod 1000000007) 0 l
+let d_nh (l : n list) : int list = [List.length l; d_hsh l]
+let d_bool b = if b then 1 else 0
+let d_md = function
+  | MdNoHeader -> [0] | MdBadString -> [1] | MdWrongScheme -> [2] | MdToken t -> 3 :: d_nh t
+let d_reason = function
+  | RMalformed -> 0 | RAlgUnavailable -> 1 | RAlgNotAllowed -> 2 | RKey -> 3 | RSignature -> 4
+  | RClaims -> 5 | RIssuer -> 6 | RSubject -> 7 | RSubType -> 8
+let d_out = function
+  | OAccept p -> 0 :: d_nh p.p_subject @ d_nh p.p_client_id @ (List.length p.p_scopes :: List.concat_map d_nh p.p_scopes)
+  | OMissingBearer -> [1]
+  | OInvalid r -> [2; d_reason r]
+let d_val (v : validity) : int list =
+  List.map d_bool [ v.vy_bearer; v.vy_wellformed; v.vy_alg; v.vy_key; v.vy_sig; v.vy_exp; v.vy_nbf;
+                    v.vy_iat; v.vy_aud; v.vy_iss; v.vy_sub; v.vy_sub_wf;
+                    decide v; property_literal v; extra_ok v ]
+let d_psk_class = function None -> 7 | Some o -> int_of_n (psk_class o)
+
+let dump_values (vs : value list) : int list =
+  match vs with
+  | I "1" :: keys :: vals :: _ :: _ :: [] ->
+    let keys = strs keys and vals = strs vals in
+    let md = auth_from_md vals in
+    d_md md
+    @ (match psk_new model_h keys with
+       | None -> [0; 7]
+       | Some hs -> [1; int_of_n (psk_class (psk_authenticate model_h hs vals))])
+    @ [d_bool (match md with MdToken t -> bmem t keys | _ -> false)]
+  | I "2" :: main :: aliases :: aud :: subjects :: cic :: now :: vals :: table :: _ ->
+    let table = table_of table in
+    let parse = parse_of table in
+    let vals = vals_of table vals in
+    let now = z_of_dec (as_dec now) in
+    (match oidc_new (as_cbytes main) (strs aliases) (as_cbytes aud) (strs subjects) (strs cic) with
+     | None -> [0]
+     | Some cfg ->
+       1 :: d_md (auth_from_md vals) @ d_out (oidc_authenticate parse cfg now vals)
+       @ d_val (validity_of parse cfg now vals))
+  | I "3" :: main :: aliases :: aud :: subjects :: cic :: steps :: [] ->
+    let steps = List.map (fun st -> match as_list st with
+      | now :: vals :: table :: _ ->
+        let table = table_of table in (z_of_dec (as_dec now), vals_of table vals, table)
+      | _ -> failwith "bad step") (as_list steps) in
+    let parse = parse_of (List.concat_map (fun (_, _, t) -> t) steps) in
+    (match oidc_new (as_cbytes main) (strs aliases) (as_cbytes aud) (strs subjects) (strs cic) with
+     | None -> [0]
+     | Some cfg -> 1 :: List.concat_map d_out (oidc_run parse cfg (List.map (fun (n, v, _) -> (n, v)) steps)))
+  | I "4" :: steps :: [] ->
+    let h = List.map (fun st -> match as_list st with
+      | keys :: _ :: vals :: _ -> (strs keys, strs vals) | _ -> failwith "bad step") (as_list steps) in
+    List.map d_psk_class (psk_run model_h h)
+  | _ -> []
+
+let f0 _id vs =
   match vs with
   | I "1" :: keys :: vals :: digests :: cls :: [] -> psk keys vals digests cls
   | I "2" :: main :: aliases :: aud :: subjects :: cic :: now :: vals :: table :: cls :: osub :: ocid :: oscopes :: [] ->
@@ -286,5 +348,12 @@ let f _id vs =
     oidc_hist main aliases aud subjects cic steps
   | I "4" :: steps :: [] -> psk_hist steps
   | _ -> "DIFF malformed-record"
+
+let f id vs =
+  (match dump_chan with
+   | Some ch ->
+     output_string ch (id ^ " " ^ String.concat " " (List.map string_of_int (dump_values vs)) ^ "\n")
+   | None -> ());
+  f0 id vs
 
 let () = run_oracle f
